@@ -33,6 +33,17 @@ TagOk(e) ==
   /\ Chk(e.ref = enc, [tag |-> "HARNESS", i |-> l, ev |-> "PTag", api |-> "", label |-> "SpecVsReference", exp |-> "", got |-> "", detail |-> ""])
   /\ Chk(e.enc = enc, R(e, "AppendTag", "Tag", "bytes-differ"))
   /\ Chk(e.r.st = "ok" /\ e.r.num = e.num /\ e.r.wt = e.wt /\ e.r.n = Len(enc), R(e, "ConsumeTag", "Tag", IF e.r.st = "ok" THEN "value" ELSE e.r.st))
+\* a tag read from arbitrary bytes by ConsumeTag (moves the cursor) and ConsumeTagWithoutMove (does not)
+TagInOk(e) ==
+  LET x == TagIn(e["in"]) IN
+  /\ Chk(x.st # "ok" \/ (e.refn = x.n /\ e.refnum = x.num /\ e.refwt = x.wt),
+         [tag |-> "HARNESS", i |-> l, ev |-> "PTagIn", api |-> "", label |-> "SpecVsReference", exp |-> "", got |-> "", detail |-> ""])
+  /\ \A j \in 1..Len(e.res) :
+       LET r == e.res[j] IN
+       IF x.st = "unspec" THEN Chk(r.st \in {"ok", "err"}, R(e, r.api, "TagIn", r.st))
+       ELSE IF x.st = "err" THEN Chk(r.st = "err", R(e, r.api, "TagInRefused", r.st))
+       ELSE Chk(r.st = "ok" /\ r.num = x.num /\ r.wt = x.wt /\ r.n = x.n /\ r.pos = (IF r.api = "ConsumeTag" THEN x.n ELSE 0),
+                R(e, r.api, "TagIn", IF r.st # "ok" THEN r.st ELSE IF r.n # x.n \/ r.pos # (IF r.api = "ConsumeTag" THEN x.n ELSE 0) THEN "consumed" ELSE "value"))
 \* Go values written / read back: equal up to "nil = empty message / empty map / empty list"
 IsEmptyG(d) == d.k = "nil" \/ (d.k \in {"smap", "imap", "amap", "idmap", "list"} /\ d.e = <<>>)
 RECURSIVE GEq(_, _)
@@ -49,6 +60,7 @@ Init == l = 1
 Step == /\ l <= Len(Trace)
         /\ LET e == Trace[l] IN
            CASE e.ev = "PScalar" -> ScalarOk(e)
+             [] e.ev = "PTagIn" -> TagInOk(e)
              [] e.ev = "PVarint" -> VarintOk(e)
              [] e.ev = "PTag" -> TagOk(e)
              [] e.ev = "PMsg" -> MsgOk(e)
